@@ -1,7 +1,8 @@
 """C09 - a failed evaluation does not corrupt the model.
 
 Fault injection: each formula cell in turn is made to fail - unknown function NOSUCH(...), plugin
-FAILK raising on every call, plugin FAILK raising on its first call only - at a leaf, mid-chain, inside
+FAILK raising on every call, plugin FAILK raising on its first call only, a text that is not a formula or a
+reference to a sheet that does not exist (both fail while the cell is *built*, not when it is evaluated) - at a leaf, mid-chain, inside
 a range, inside a CSE array, inside a cycle, and under an outer formula which has already captured a
 #VALUE! when the inner evaluation fails.  The follow-up history is the oracle: retries must fail again
 with a PyCelException (or, for the one-shot fault, return the correct value), unrelated cells must
@@ -28,10 +29,10 @@ BUDGET = {'quick': 30, 'thorough': 300}
 FLOORS = {
     'quick': {'cases': 600, 'faults_raised': 500, 'retries': 800, 'unrelated_compares': 1500,
               'second_failures': 150, 'repairs': 400, 'repair_compares': 3000, 'mode:plain': 200,
-              'mode:iterative': 200, 'kind:nosuch': 150, 'kind:failk-always': 150, 'kind:failk-once': 100, 'kind:failname': 100,
-              'kind:nosuch-keyword': 100,
+              'mode:iterative': 200, 'kind:nosuch': 50, 'kind:failk-always': 50, 'kind:failk-once': 50, 'kind:failname': 50,
+              'kind:nosuch-keyword': 50, 'kind:no-parse': 50, 'kind:missing-sheet': 50,
               'pos:leaf': 50, 'pos:mid-chain': 50, 'pos:in-range': 50, 'pos:cse': 10, 'pos:cycle': 20,
-              'first:probe': 100, 'h2_events': 5000, 'real_book_cases': 30, 'real_faults_raised': 30},
+              'first:probe': 100, 'h2_events': 5000, 'real_book_cases': 15, 'real_faults_raised': 15},
     'thorough': {'cases': 12000, 'second_failures': 3000, 'pos:cse': 200, 'pos:cycle': 500},
 }
 for _tier in FLOORS:
@@ -116,6 +117,12 @@ def wrap(formula, kind, tag):
         return f'=LAMBDA({body})'          # an unknown function whose name python cannot even parse as a call
     if kind == 'failname':
         return f'=FAILNAME({body})'        # a plugin that fails with a NameError of its own
+    if kind == 'no-parse':
+        # fails when the cell is *built*: the text is not a formula (an operator without its operand)
+        return f'=({body})+'
+    if kind == 'missing-sheet':
+        # fails when the cell is built: a written reference to a sheet the workbook does not have
+        return f'=NoSuchSheet!A1+({body})'
     if kind == 'failk-always':
         return f'=FAILK("{tag}",0,{body})'
     return f'=FAILK("{tag}",1,{body})'
@@ -253,7 +260,11 @@ def one_case(ctx, plan, mode, first, case_extra=None):
         if r[0] == 'v':
             bad('injected-fault-returns-a-value', f'evaluate({F!r}) = {r[1]!r} although its formula must fail')
             return
-    if r[0] == 'other':
+    if r[0] == 'other' and kind == 'missing-sheet':
+        # the statement starts "when evaluating a cell raises" and promises pycel's own errors for what comes after;
+        # the workbook's own KeyError for a sheet that does not exist is the first failure here (counted, not judged)
+        ctx.count('first_failure_is_the_workbooks_own_error')
+    elif r[0] == 'other':
         bad('first-failure-is-not-a-pycel-error', f'evaluate({touch!r}) raised {r[1]}')
         return
     ctx.count('faults_raised')
@@ -510,7 +521,9 @@ def one_cycle(ctx, spec, info, kind, idx, case=None):
     if r[0] == 'v' and kind != 'failk-once':
         bad('injected-fault-returns-a-value', f'evaluate = {r[1]!r} although a cell of the cycle must fail')
         return
-    if r[0] == 'other':
+    if r[0] == 'other' and kind == 'missing-sheet':
+        ctx.count('first_failure_is_the_workbooks_own_error')      # see one_case
+    elif r[0] == 'other':
         bad('first-failure-is-not-a-pycel-error', f'evaluate raised {r[1]}')
         return
     ctx.count('faults_raised')
@@ -702,7 +715,8 @@ def run(ctx):
         from vp import suiteload
         suiteload.run_suite(ctx)
     rng = ctx.rng
-    kinds = ['nosuch', 'failk-always', 'failk-once', 'nosuch-keyword', 'failname', 'nosuch-constant', 'nosuch-braces']
+    kinds = ['nosuch', 'failk-always', 'failk-once', 'nosuch-keyword', 'failname', 'nosuch-constant', 'nosuch-braces',
+             'no-parse', 'missing-sheet']
     if ctx.shard == 0:
         unbounded_case(ctx)
         same_value_case(ctx)
